@@ -149,7 +149,7 @@ Proof.
     match goal with |- context[match ?x with Some _ => _ | None => _ end] => destruct x as [[active' avail3]|] end;
       [|destruct NCID_EMPTY_CLOSES; intros H; inversion H; subst; apply Same; auto; exact I].
     destruct (1 + Zlen avail3 >? LOCAL_ACTIVE_CID_LIMIT); [intros H; inversion H; subst; apply Same; auto; exact I|].
-    match goal with |- context[if (Zlen ?p >? ?q) then _ else _] => destruct (Zlen p >? q) end; [intros H; inversion H; subst; apply Same; auto; exact I|].
+    match goal with |- context[if over_retire_cap ?p ?q then _ else _] => destruct (over_retire_cap p q) end; [intros H; inversion H; subst; apply Same; auto; exact I|].
     intros H; inversion H; subst. apply Same; [reflexivity|reflexivity|exact I].
   - unfold handle_path_packet. destruct (pfind addr (c_paths c)); intros H; inversion H; subst; (apply Same; [reflexivity|reflexivity|exact I]).
 Qed.
